@@ -60,6 +60,19 @@ def test(inp):
                 clim = coll.get_clim()
                 if tuple(clim) != (min(n * 10 + 3 for n in present), max(n * 10 + 3 for n in present)):
                     return f'{label}: colour limits {clim} do not span exactly the plotted values'
+        # infinite values (log of zero ...) in cells that have geometry: still one value per patch, each with its own cell
+        if len(present) >= 3:
+            inf_lin = lin.copy().ravel()
+            inf_lin[present[1]] = numpy.inf
+            inf_lin[present[-1]] = -numpy.inf
+            dinf = ds.assign(marker=(fdims, inf_lin.reshape(shape)))
+            coll = must(lambda: dinf.ems.make_poly_collection('marker'), 'make_poly_collection with infinite values')
+            arr = numpy.asarray(coll.get_array())
+            if len(arr) != len(coll.get_paths()) or len(arr) != len(present):
+                return f'infinite values: {len(coll.get_paths())} patches but {len(arr)} values'
+            for k, n in enumerate(present):
+                if arr[k] != inf_lin[n]:
+                    return f'infinite values: patch {k} shows cell {n} but carries another value'
         e = variants['by name'][1].ems
         c2 = e.make_poly_collection('marker', clim=(1.0, 2.0))
         if tuple(c2.get_clim()) != (1.0, 2.0):
